@@ -91,7 +91,7 @@ def _check_struct(m, cs, cdef, T, path, problems):
     # resolve inline class names to nested types by name
     for f in T.fields.values():  # folded view: fields of anonymous members are annotated on this class
         t = f.type
-        while hasattr(t, "type") and not issubclass(t, m.Structure) and not issubclass(t, (m.Enum, m.Flag)):
+        while hasattr(t, "type") and not issubclass(t, m.Structure) and not issubclass(t, (m.Enum, m.Flag)) and t.type is not None:
             t = t.type
         if isinstance(t, type) and issubclass(t, m.Structure) and t.__name__ in inline:
             inline[t.__name__] = t
@@ -104,32 +104,29 @@ def _check_struct(m, cs, cdef, T, path, problems):
         ok, why = _hint_matches(m, cs, node, field.type, inline, path)
         if not ok:
             problems.append(f"{path}.{name}: hint {ast.unparse(node)!r} does not denote the field's type: {why}")
+    # the keyword overload of __init__ declares the same fields with the same hints (optional)
+    inits = [n for n in cdef.body if isinstance(n, ast.FunctionDef) and n.name == "__init__" and not n.args.posonlyargs]
+    if len(inits) != 1:
+        problems.append(f"{path}: {len(inits)} keyword __init__ overloads")
+    else:
+        got_args = [(a.arg, ast.unparse(a.annotation) if a.annotation is not None else None) for a in inits[0].args.args[1:]]
+        want_args = [(name, ast.unparse(node) + " | None") for name, node in ann]
+        if got_args != want_args:
+            problems.append(f"{path}: __init__ parameters {got_args[:6]}, annotated fields {want_args[:6]}")
     for node in cdef.body:
         if isinstance(node, ast.ClassDef) and inline.get(node.name) is not None:
             _check_struct(m, cs, node, inline[node.name], f"{path}.{node.name}", problems)
 
 
-def run_case(case, ctx):
-    m = import_repo()
-    from dissect.cstruct.tools import stubgen
-
-    text = "".join(i["text"] for i in case["items"]) + "".join(f"#define {n} {v}\n" for n, v in case["consts"])
-    cs = m.cstruct()
-    r = lib(cs.load, text, compiled=case["compiled"])
-    if isinstance(r, Err):
-        raise Violation("definition-rejected", f"{r}\n{text}", r.where)
-    for an, tgt in case.get("api_aliases", []):
-        cs.add_type(an, tgt)
-    stub = lib(stubgen.generate_cstruct_stub, cs)
-    if isinstance(stub, Err):
-        raise Violation("stubgen-raised", f"{stub}\n{text}", stub.where)
+def _judge(m, cs, stub, text, phase=""):
+    """The whole oracle for one generated stub; raises Violation, returns (declared names -> node)."""
     try:
         tree = ast.parse(stub)
     except SyntaxError as e:
         line = stub.splitlines()[e.lineno - 1] if e.lineno and e.lineno <= len(stub.splitlines()) else ""
         first = line.strip().split(":")[0].split("=")[0].strip()
         kind = "keyword-name" if keyword.iskeyword(first) or any(f" {k}:" in line or f"({k}:" in line or f", {k}:" in line for k in keyword.kwlist) else "other"
-        raise Violation(f"stub-not-python:{kind}", f"SyntaxError line {e.lineno}: {line.strip()!r}\n--- definitions\n{text}\n--- stub\n{stub}", info={"line": line}) from None
+        raise Violation(f"stub-not-python:{kind}", f"{phase}SyntaxError line {e.lineno}: {line.strip()!r}\n--- definitions\n{text}\n--- stub\n{stub}", info={"line": line}) from None
     cls = [n for n in tree.body if isinstance(n, ast.ClassDef)]
     if len(cls) != 1:
         raise Violation("stub-shape", f"expected one class, found {[c.name for c in cls]}\n{stub}")
@@ -196,7 +193,40 @@ def run_case(case, ctx):
                     problems.append(f"alias {n}: target {ast.unparse(node)!r} does not denote the actual type {T.__name__}: {why}")
     if problems:
         kind = "stub-mismatch"
-        raise Violation(kind, f"{problems[:6]}\n--- definitions\n{text}\n--- stub\n{stub}", info={"problems": problems})
+        raise Violation(kind, f"{phase}{problems[:6]}\n--- definitions\n{text}\n--- stub\n{stub}", info={"problems": problems})
+    return declared
+
+
+def run_case(case, ctx):
+    m = import_repo()
+    from dissect.cstruct.tools import stubgen
+
+    text = "".join(i["text"] for i in case["items"]) + "".join(f"#define {n} {v}\n" for n, v in case["consts"])
+    cs = m.cstruct()
+    r = lib(cs.load, text, compiled=case["compiled"])
+    if isinstance(r, Err):
+        raise Violation("definition-rejected", f"{r}\n{text}", r.where)
+    for an, tgt in case.get("api_aliases", []):
+        cs.add_type(an, tgt)
+    stub = lib(stubgen.generate_cstruct_stub, cs)
+    if isinstance(stub, Err):
+        raise Violation("stubgen-raised", f"{stub}\n{text}", stub.where)
+    declared = _judge(m, cs, stub, text)
+    user_types = [n for n in cs.typedefs if n not in m.cstruct().typedefs]
+    # the file-stub call form (another module prefix and class name) is the same stub up to those two names
+    pstub = lib(stubgen.generate_cstruct_stub, cs, module_prefix="__cs__.", cls_name="_c_structure")
+    if isinstance(pstub, Err):
+        raise Violation("stubgen-raised", f"generate_cstruct_stub(module_prefix='__cs__.', cls_name='_c_structure'): {pstub}\n{text}", pstub.where)
+    back = pstub.replace("__cs__.", "").replace("_c_structure.", "cstruct.").replace("class _c_structure(", "class cstruct(")
+    if back != stub:
+        import difflib
+
+        diff = "\n".join(list(difflib.unified_diff(stub.splitlines(), back.splitlines(), lineterm="", n=0))[:12])
+        raise Violation("stub-prefix-form-differs", f"the stub generated with module_prefix='__cs__.' / cls_name='_c_structure' is not the default stub with those names substituted:\n{diff}\n--- definitions\n{text}")
+    try:
+        compile(stub, "stub", "exec")
+    except SyntaxError as e:
+        raise Violation("stub-not-python:other", f"compile(): {e}\n--- definitions\n{text}\n--- stub\n{stub}") from None
     # history: extend a structure through the public API, add an alias, generate again - the second stub must describe
     # the definitions as they are NOW (nothing about an earlier generation may survive)
     if not case.get("second_pass") and case.get("extend", True):
@@ -220,6 +250,19 @@ def run_case(case, ctx):
                 if problems2:
                     raise Violation("stub-stale-after-extension", f"after {tgt.__name__}.add_field('extra_added_later', uint32) the regenerated stub is wrong: {problems2[:4]}\n--- definitions\n{text}\n--- stub\n{stub2}")
                 ctx.count("history:regenerated-after-add_field")
+                # ... and after further definitions, constants and aliases were added: EVERYTHING is judged again
+                more = f"#define LATER_CONST 7\ntypedef {tgt.__name__} later_t;\nenum LaterEnum : uint8 {{ LATER_A = 3 }};\n"
+                r2 = lib(cs.load, more)
+                r3 = lib(cs.add_type, "later_alias", tgt)
+                if not isinstance(r2, Err) and not isinstance(r3, Err):
+                    stub3 = lib(stubgen.generate_cstruct_stub, cs)
+                    if isinstance(stub3, Err):
+                        raise Violation("stubgen-raised", f"third generation after further loads: {stub3}\n{text}{more}", stub3.where)
+                    try:
+                        _judge(m, cs, stub3, text + more, phase="(generation after add_field, a later load() and add_type()) ")
+                    except Violation as v3:
+                        raise Violation("stub-stale-after-extension", v3.detail, v3.where, v3.info) from None
+                    ctx.count("history:regenerated-after-further-definitions")
     kinds = {i["kind"] for i in case["items"]}
     for k in kinds:
         ctx.count("has:" + k)
